@@ -55,6 +55,7 @@ type ServerOpts struct {
 	UDPExtra     map[string]any
 	TCPExtra     map[string]any
 	SendChanCap  int
+	Host         string // listen host; default 127.0.0.1 ("[::]" = dual stack)
 }
 
 // Server returns the JSON object of a server listening on 127.0.0.1:port.
@@ -63,7 +64,11 @@ func (t *Topo) Server(name, proto string, port int, o ServerOpts) map[string]any
 	if o.MTU != 0 {
 		s["mtu"] = o.MTU
 	}
-	addr := fmt.Sprintf("127.0.0.1:%d", port)
+	host := o.Host
+	if host == "" {
+		host = "127.0.0.1"
+	}
+	addr := fmt.Sprintf("%s:%d", host, port)
 	if o.TCP {
 		l := map[string]any{"network": "tcp", "address": addr}
 		if o.DisableWait {
